@@ -531,6 +531,65 @@ func c07(c *Ctx) {
 			}
 		}
 		c.R.Check(flows, load.FuncName(fn)+": revision follows the XR under Automatic", c.pos(fn.Pos()), "cm.SetCompositionRevisionReference(xr.GetCompositionRevisionReference())", "the XR's composition revision is never written to the claim: under the Automatic policy the claim keeps the first revision it saw")
+		// what flows back is written: after an XR-owned value was put on the claim, no
+		// success return is reached without a client.Update of the claim
+		{
+			var muts, upds []ssa.CallInstruction
+			for _, x := range calls(fn, xprt+"meta.SetExternalName") {
+				if flow.Root(underIface(cfgx.CallArgs(x)[0])) == cm {
+					muts = append(muts, x)
+				}
+			}
+			muts = append(muts, methodCallOn(fn, "claim.Unstructured).SetCompositionReference", cm)...)
+			muts = append(muts, methodCallOn(fn, "claim.Unstructured).SetCompositionRevisionReference", cm)...)
+			for _, u := range calls(fn, clientUpdate) {
+				if a := cfgx.CallArgs(u); len(a) > 1 && flow.Root(underIface(a[1])) == cm {
+					upds = append(upds, u)
+				}
+			}
+			for _, m := range muts {
+				var gates []cfgx.Edge
+				var thru []ssa.CallInstruction
+				for _, u := range upds {
+					if cfgx.InstrReaches(m, u, nil) {
+						gates = append(gates, okEdges(u)...)
+						thru = append(thru, u)
+					}
+				}
+				bad := ""
+				for _, b := range fn.Blocks {
+					r, ok := b.Instrs[len(b.Instrs)-1].(*ssa.Return)
+					if !ok || !cfgx.InstrReaches(m, r, nil) {
+						continue
+					}
+					e := cfgx.ReturnValue(r, len(r.Results)-1)
+					if isWrapOfCall(e) {
+						// `return Wrap(client.Update(cm))`: the return is the outcome of the write
+						inner := e.(*ssa.Call).Call.Args[0]
+						direct := false
+						for _, u := range thru {
+							if uv, ok := u.(ssa.Value); ok && uv == inner {
+								direct = true
+							}
+						}
+						if direct {
+							continue
+						}
+						if ic, ok := inner.(ssa.CallInstruction); ok {
+							if onFail, _ := cfgx.MustCross(r, failEdges(ic), nil); onFail && len(failEdges(ic)) > 0 {
+								continue // `if err := step(); err != nil { return Wrap(err) }`
+							}
+						}
+					} else if nonNilError(r) == "nonnil" {
+						continue
+					}
+					if !cfgx.CrossesAfter(m, r, gates) {
+						bad = c.pos(r.Pos())
+					}
+				}
+				c.R.Check(bad == "", site(m)+" persisted", c.pos(m.Pos()), "after this XR-owned value was put on the claim every success return lies behind a successful client.Update of the claim", "the value put on the claim here can be dropped: the return at "+bad+" is reachable without a client.Update of the claim (status updates do not persist metadata or spec)")
+			}
+		}
 		// the XR-owned key table is only ever narrowed for the Manual direction:
 		// no entry is deleted from a GetPropFields/field table on an Automatic edge
 		for _, d := range calls(fn, "builtin.delete") {
